@@ -428,7 +428,10 @@ class ProgramGen(object):
 
     def self_word(self):
         """`self` is a keyword: any letter case"""
-        return self.r.choice(['self', 'self', 'self', 'SELF', 'Self'])
+        w = self.r.choice(['self', 'self', 'self', 'SELF', 'Self'])
+        if w != 'self':
+            self.stats['self_respelled'] = self.stats.get('self_respelled', 0) + 1
+        return w
 
     def inst_names(self, kl):
         """instance NAMES usable in delete / relate / unrelate: instance variables of the class, and `self`"""
@@ -442,6 +445,7 @@ class ProgramGen(object):
         w = self.r.random()
         if w < 0.8:
             return 'R%d' % numb
+        self.stats['rel_id_respelled'] = self.stats.get('rel_id_respelled', 0) + 1
         return self.r.choice(['R0%d', 'R00%d', 'r%d', 'r0%d']) % numb
 
     def params_text(self, params, depth, sel):
@@ -835,6 +839,8 @@ class ProgramGen(object):
             # the meaning may be omitted (the regenerated text prints the modelled one)
             mtext = '' if r.random() < 0.2 else ':' + ("'%s'" % meaning if (' ' in meaning or r.random() < 0.6)
                                                        else meaning)
+            if not mtext:
+                self.stats['event_meaning_omitted'] = self.stats.get('event_meaning_omitted', 0) + 1
             spec = "%s%s(%s)" % (label, mtext, ', '.join(data))
             if k == 'gen_evt':
                 return [['s', 'generate %s to %s' % (spec, to), 'plain']]
@@ -1015,6 +1021,29 @@ def _end(r, what, vary):
     if w < 0.9:
         return 'end  ' + what
     return 'End ' + what.capitalize()
+
+
+def text_stats(text):
+    """surface features of a rendered body, for the evidence's input distribution"""
+    import re
+    st = {}
+    if '\r\n' in text:
+        st['text_crlf'] = 1
+    if re.search(r'^\t', text, re.M):
+        st['text_tab_indent'] = 1
+    if 'a comment over\n' in text or 'a comment over\r\n' in text:
+        st['text_comment_inside_statement'] = 1
+    if '/*' in text:
+        st['text_block_comment'] = 1
+    if text.rstrip().endswith('comment') and '//' in text.split('\n')[-1]:
+        st['text_final_line_comment_no_newline'] = 1
+    if re.search(r'\b(SELECT|Select|WHERE|Where|RELATED|Related|ACROSS|Across|INSTANCES|Instances|OF|Of|TO|To|FROM|From)\b', text):
+        st['text_inner_keyword_respelled'] = 1
+    if re.search(r'\b(CARDINALITY|Cardinality|NOT_EMPTY|Not_empty|EMPTY|Empty|NOT|Not|AND|And|OR|Or)\b', text):
+        st['text_operator_keyword_respelled'] = 1
+    if '\\' in text:
+        st['text_backslash_in_string'] = 1
+    return st
 
 
 def count_statements(prog):
